@@ -2,6 +2,9 @@ package cdcnmon
 
 import (
 	"fmt"
+	"os"
+	"os/exec"
+	"path/filepath"
 	"regexp"
 	"runtime"
 	"strconv"
@@ -527,4 +530,100 @@ func ReproConversionErrors() (bool, string) {
 		return true, "ParseSource(\"['\\xff'](List)\") returned " + got
 	}
 	return false, "unrepresentable literals are rejected, '\\xff' is rune 255"
+}
+
+// ---- coverage-guided tier (go test -fuzz), see harness/fuzz ----
+
+// FuzzSeeds is the seed corpus: valid documents of every shape.
+func FuzzSeeds() []string {
+	r := core.NewRng(20261003)
+	out := []string{"[ ](List)", "[:](Map)", "[1, 2](Set)", "[\n    \"a\": 1\n    \"b\": [true](Stack)\n](Catalog)\n",
+		"[(1.0+2.0i), 0xff, 'x', \"s\", nil, -1.5E+10](Array)", "[1, 2](Catalog)", "[(", "[1, 2](Set), 1, 1, 1, 1, 1, 1, 1, 1, 1, 1, 1, 1, 1, 1, 1, 1, 1, 1"}
+	for i := 0; i < 40; i++ {
+		s, _ := Derive(r, r.Intn(3))
+		out = append(out, s)
+	}
+	return out
+}
+
+// LeakAfterParse is the leak monitor without a Ctx (used by the fuzz target):
+// "" when no scanner goroutine is left, otherwise a description.
+func LeakAfterParse() string {
+	for attempt := 0; attempt < 300; attempt++ {
+		total, blocked := scannerGoroutines()
+		if total == 0 {
+			return ""
+		}
+		if blocked == total && attempt >= 3 {
+			return fmt.Sprintf("%d scanner goroutine(s) parked in a channel send after ParseSource ended", blocked)
+		}
+		if attempt < 20 {
+			runtime.Gosched()
+		} else {
+			time.Sleep(200 * time.Microsecond)
+		}
+	}
+	return ""
+}
+
+var failingInputRe = regexp.MustCompile(`Failing input written to (\S+)`)
+var execsRe = regexp.MustCompile(`execs: (\d+)`)
+var interestingRe = regexp.MustCompile(`new interesting: (\d+)`)
+
+// RunC12Fuzz runs Go's coverage-guided fuzzer on ParseSource for a fixed
+// number of executions and converts a crasher into a violation.
+func RunC12Fuzz(c *core.Ctx) {
+	root := core.Root()
+	execs := core.Tiered(c.Tier, 20000, 1000000)
+	cache := filepath.Join(root, ".build", "fuzzcache")
+	os.MkdirAll(cache, 0o755)
+	pkg := filepath.Join(root, "harness")
+	cmd := exec.Command("go", "test", "-tags", "verif", "-run", "^$", "-fuzz", "^FuzzParse$", fmt.Sprintf("-fuzztime=%dx", execs),
+		"./fuzz/", "-test.fuzzcachedir="+cache)
+	cmd.Dir = pkg
+	out, err := cmd.CombinedOutput()
+	s := string(out)
+	if m := failingInputRe.FindStringSubmatch(s); m != nil {
+		path := filepath.Join(pkg, "fuzz", m[1])
+		b, _ := os.ReadFile(path)
+		os.Remove(path)
+		input := ""
+		for _, line := range strings.Split(string(b), "\n") {
+			if strings.HasPrefix(line, "string(") {
+				if v, e := strconv.Unquote(strings.TrimSuffix(strings.TrimPrefix(line, "string("), ")")); e == nil {
+					input = v
+				}
+			}
+		}
+		o := Parse(input)
+		sig, msg := ClassifyOutcome(input, o)
+		if sig == "" {
+			if leak := LeakAfterParse(); leak != "" {
+				sig, msg = "leak/scanner-goroutine-blocked", leak
+			} else {
+				sig, msg = "fuzz/crasher-not-reproduced", "the fuzzer reported a failing input that the classifier accepts when re-run: "+clip(s, 400)
+			}
+		}
+		c.Violation(sig+"/found-by-fuzzer", msg, map[string]any{"input": clip(input, 800), "family": "coverage-guided fuzzing"})
+		return
+	}
+	if err != nil && !strings.Contains(s, "PASS") {
+		c.Inconclusive("the coverage-guided fuzzer did not run to completion: " + clip(strings.TrimSpace(s), 300))
+		return
+	}
+	last := 0
+	for _, m := range execsRe.FindAllStringSubmatch(s, -1) {
+		last, _ = strconv.Atoi(m[1])
+	}
+	interesting := 0
+	for _, m := range interestingRe.FindAllStringSubmatch(s, -1) {
+		interesting, _ = strconv.Atoi(m[1])
+	}
+	if last == 0 {
+		last = execs
+	}
+	c.CoverN("fuzz.executions", last)
+	c.CoverN("fuzz.new-interesting-inputs", interesting)
+	c.Distinct(core.Mix(0xf022, uint64(last), uint64(interesting)))
+	c.Sample("fuzz", map[string]any{"executions": last, "new_interesting_inputs": interesting})
 }
